@@ -275,6 +275,19 @@ def mergeEntries (q : List DelOp) (srcs : List Entry) (target newId : Nat) : Opt
   some { segId := newId, docs := docs, alive := List.replicate docs.length true,
          cursor := match adv with | e :: _ => e.cursor | [] => 0 }
 
+/-- mirrors: src/indexer/segment_updater.rs::consider_merge_options / make_merge_operation — the
+target opstamp of a merge: candidates over COMMITTED segments (and every explicit
+`IndexWriter::merge`) get the opstamp of the last commit, policy candidates over UNCOMMITTED
+segments get the stamp drawn when the merge is scheduled. -/
+def mergeTarget (sourcesCommitted : Bool) (commitOpstamp currentStamp : Nat) : Nat :=
+  if sourcesCommitted then commitOpstamp else currentStamp
+
+/-- mutant of `mergeEntries` used by a counterexample: the delete cursor of the first source is
+taken BEFORE the sources are advanced to the target (a stale queue position) -/
+def mergeEntriesStale (q : List DelOp) (srcs : List Entry) (target newId : Nat) : Option Entry :=
+  (mergeEntries q srcs target newId).map fun m =>
+    { m with cursor := match srcs with | e :: _ => e.cursor | [] => 0 }
+
 /-- a merge in flight -/
 structure Running where
   sources : List Nat
